@@ -6,6 +6,13 @@ from ..monitors import parse as MP
 from ..oracles import refgrammar as G
 from ..workloads import text as WT
 
+MANIFEST = dict(
+    technique='runtime monitor on ExpressionParser.parse vs independent reference recogniser + exact rational evaluator; grammar-directed and mutated text workload',
+    text='Every parse() of a generated/corpus/mutated string is decided against a reference parser written from the documented grammar: same acceptance, same operand multiset, same literal types, same exact value at >= 10 assignments. Held on the strings observed (all grammar productions are required arms).',
+    note='Trusts the reference grammar reading in DESIGN.md Appendix A, fractions.Fraction arithmetic and sampling of assignments.',
+    ref='DESIGN.md 3/C03',
+)
+
 RULE = (
     "W1 corpus (rule example files, docs, tests), W3 grammar-directed random text over all productions, constant "
     "classes (0, 1, small, > 2^63, decimals, leading zeros, '.5', '1.') and exponent classes, W5 token soups and "
